@@ -24,13 +24,16 @@ def S(name, threads, pool_max=0, queues=1, R=3, B=14, oracles=(), order=None, po
         # a deterministic set-up prefix ('A! P0!': each named thread runs until it blocks or finishes) followed by R generic rounds over all threads
         names = [t['name'] for t in threads if not t.get('final')] + ['P%d' % i for i in range(pool_slots if pool_slots is not None else pool_max)]
         seq = setup.split() + R * names
+        setup_info = (setup.split(), names, R)
     if seq is not None:
         seq = seq.split() if isinstance(seq, str) else list(seq); R = len(seq)
     bounds = {'R': R, 'B': B, 'CAP': cap, 'threads': len(threads) + (pool_slots if pool_slots is not None else pool_max), 'pool_max': pool_max}
     if seq is not None: bounds = dict(bounds, R='explicit slot sequence', slot_sequence=' '.join(seq))
     if setup is not None: bounds['setup'] = 'deterministic prefix %s (each thread runs until it blocks or finishes), then round-robin rounds over all threads' % setup
     elif order is not None: bounds['thread_order'] = order
-    return {'name': name, 'scen': sc, 'R': R, 'B': B, 'oracles': list(oracles), 'order': order, 'seq': seq, 'cap': cap, 'witness': witness, 'bounds': bounds}
+    d = {'name': name, 'scen': sc, 'R': R, 'B': B, 'oracles': list(oracles), 'order': order, 'seq': seq, 'cap': cap, 'witness': witness, 'bounds': bounds}
+    if setup is not None: d['setup_info'] = setup_info
+    return d
 
 BASE = ('panic', 'overlap', 'ran_twice')
 
@@ -447,6 +450,12 @@ def rotate_orders(L, seed):
     which covers a different set of schedules for the same R and B"""
     if not seed: return L
     for s_ in L:
+        if s_.get('setup_info'):
+            pre, names, R_ = s_['setup_info']; k = seed % len(names)
+            if k:
+                s_['seq'] = pre + R_ * (names[k:] + names[:k]); s_['R'] = len(s_['seq'])
+                s_['bounds'] = dict(s_['bounds'], slot_sequence=' '.join(s_['seq']))
+            continue
         if s_['seq'] is None and s_['order'] is None:
             sc_ = s_['scen']; n = len([t for t in sc_['threads'] if not t.get('final')]) + sc_.get('pool_slots', sc_['pool_max']); k = seed % n
             if k:
